@@ -3,6 +3,7 @@ package sessiontracker
 import (
 	"fmt"
 	"strconv"
+	"sync"
 	"time"
 
 	"github.com/elastic/go-libaudit/v2/aucoalesce"
@@ -34,6 +35,17 @@ func NewSessionTracker(eventWriter *auditevent.EventWriter, l *zap.SugaredLogger
 // allowing us to correlate auditd events back to the credential
 // a user used to authenticate.
 type sessionTracker struct {
+	// mtx serialises RemoteLogin, AuditdEvent and the cleanup methods.
+	//
+	// Remote user logins, audit events and cleanup are delivered from
+	// different Go routines. Each of the two maps below has its own
+	// lock, but correlating a login with an audit session is a
+	// check-then-act sequence across both maps: without a common lock
+	// a login can be parked in pidsToRULs right after the session it
+	// belongs to was stored in sessIDsToUsers (and the other way
+	// around), leaving both halves waiting for each other forever.
+	mtx sync.Mutex
+
 	// sessIDsToUsers contains active auditd sessions which may
 	// or may not have a common.RemoteUserLogin associated with
 	// them. It also acts as an auditd event cache.
@@ -76,6 +88,9 @@ func (o *sessionTracker) RemoteLogin(rul common.RemoteUserLogin) error {
 			inner:           err,
 		}
 	}
+
+	o.mtx.Lock()
+	defer o.mtx.Unlock()
 
 	// Check if there is an auditd session for this login.
 	var found bool
@@ -159,6 +174,9 @@ func (o *sessionTracker) AuditdEvent(event *aucoalesce.Event) error {
 		"auditEventType", event.Type.String(),
 		"auditSessionID", event.Session)
 	debugLogger.Debugln("new audit event")
+
+	o.mtx.Lock()
+	defer o.mtx.Unlock()
 
 	if o.sessIDsToUsers.Has(event.Session) {
 		return o.auditEventWithSession(event, debugLogger)
@@ -303,6 +321,9 @@ func (o *sessionTracker) DeleteUsersWithoutLoginsBefore(t time.Time) {
 			"before", t.String())
 	}
 
+	o.mtx.Lock()
+	defer o.mtx.Unlock()
+
 	o.sessIDsToUsers.Iterate(func(id string, u *user) bool {
 		if !u.hasRUL && u.added.Before(t) {
 			if debugLogger != nil {
@@ -331,6 +352,9 @@ func (o *sessionTracker) DeleteRemoteUserLoginsBefore(t time.Time) {
 			"cacheCleanup", "deleteRemoteUserLoginsBefore",
 			"before", t.String())
 	}
+
+	o.mtx.Lock()
+	defer o.mtx.Unlock()
 
 	o.pidsToRULs.Iterate(func(pid int, userLogin common.RemoteUserLogin) bool {
 		if userLogin.Source.LoggedAt.Before(t) {
